@@ -194,7 +194,7 @@ def iso_prefix(rng):
     return steps
 
 
-def iso_req(q, rng, keys, fail=""):
+def iso_req(q, rng, keys, fail="", plain=False):
     m = rng.choice(["Execute", "ExecuteConcurrent", "ExecuteMixModel", "ExecuteInverseMixModel", "emMulti", "em",
                     "ExecuteSelectedRules", "ExecuteSelectedRulesConcurrent", "ExecuteDAGModel", "ExecuteWithStopTagDirect",
                     "ExecuteSelectedRulesMixModel", "emSelected"])
@@ -202,7 +202,19 @@ def iso_req(q, rng, keys, fail=""):
     if m == "em" and not keys:
         r.update(via="emMulti")
     r.update(q=q, keys=keys, fail=fail, noret=rng.random() < 0.2)
-    if rng.random() < 0.06:
+    x = rng.random()
+    if plain:
+        # holders of starve / fill steps must get into their rule: none of the requests the pool refuses
+        return r
+    if x < 0.05:
+        # a selection that names no installed rule: refused, and the instance handed back exactly once
+        r.update(method=rng.choice(["ExecuteSelectedRules", "ExecuteSelectedRulesWithControl", "ExecuteSelectedRulesConcurrent",
+                                    "ExecuteSelectedRulesMixModel", "ExecuteSelectedRulesInverseMixModel"]), via="direct",
+                 names=["nosuch1", "nosuch2"], fail="")
+    elif x < 0.10 and keys:
+        # the two-object entry point with only its second object: nothing called `req` is injected
+        r.update(method="Execute", via="emresp", names=None, fail="")
+    elif x < 0.16:
         # a request the pool must refuse (window larger than the rule set / non-positive sizes): it runs nothing and
         # hands back nothing of anybody else
         r.update(method=rng.choice(["ExecuteNSortMConcurrent", "ExecuteNConcurrentMSort", "ExecuteNConcurrentMConcurrent",
@@ -278,9 +290,9 @@ def check_c17(run):
         for which in ("resident", "addition", "any"):
             for fail in ("", "boom", "cond", "nilstag", "concboom"):
                 for nw in ((1, 2) if not quick else (rng.choice([1, 2]),)):
-                    reqs = [iso_req(k + 1, rng, ISO_KEYS, fail) for k in range(mx)] + \
-                           [iso_req(mx + k + 1, rng, ISO_KEYS, "") for k in range(nw)]
-                    final = [iso_req(mx + nw + k + 1, rng, ISO_KEYS, "") for k in range(mx)]
+                    reqs = [iso_req(k + 1, rng, ISO_KEYS, fail, plain=True) for k in range(mx)] + \
+                           [iso_req(mx + k + 1, rng, ISO_KEYS, "", plain=True) for k in range(nw)]
+                    final = [iso_req(mx + nw + k + 1, rng, ISO_KEYS, "", plain=True) for k in range(mx)]
                     nst += 1
                     starve = {"op": "starve", "reqs": reqs, "which": which, "waiters": nw}
                     script = [starve, {"op": "quiesce"}]
@@ -332,7 +344,7 @@ def check_c17(run):
         fill = []
         for k in range(mx):
             q += 1
-            fill.append(iso_req(q, rng, ISO_KEYS, ""))
+            fill.append(iso_req(q, rng, ISO_KEYS, "", plain=True))
         for r in fill:
             if r.get("n", 0) > 4 or r["method"].startswith("ExecuteN") or r["method"].startswith("ExecuteSelectedN"):
                 r.update(call_for("Execute", [], 0))
